@@ -1029,8 +1029,7 @@ class Filterbank(ABC):
         chan_delays = self.header.get_dmdelays(dm)
         max_delay = int(chan_delays.max())
         gulp = max(2 * max_delay, gulp)
-        # must be memset to zero in c code
-        out_ar = np.empty((gulp - max_delay) * nsub, dtype="float32")
+        out_ar = np.zeros((gulp - max_delay) * nsub, dtype="float32")
         new_foff = self.header.foff * self.header.nchans // nsub
         new_fch1 = self.header.ftop - new_foff / 2
         chan_to_sub = np.arange(self.header.nchans, dtype="int32") // subfactor
@@ -1063,6 +1062,8 @@ class Filterbank(ABC):
                 nsamps_r,
             )
             out_file.cwrite(out_ar[: (nsamps_r - max_delay) * nsub])
+            # The kernel accumulates: start the next block from zero
+            out_ar.fill(0)
         return outfile_name
 
     def fold(
